@@ -27,8 +27,8 @@ def sh(cmd, **kw):
     return subprocess.run(cmd, shell=True, capture_output=True, text=True, **kw)
 
 
-def one(name, tier, seeds):
-    d = os.path.join(VERIF, "seeded", name)
+def one(name, tier, seeds, base="seeded"):
+    d = os.path.join(VERIF, base, name)
     meta = json.load(open(os.path.join(d, "meta.json")))
     prop = meta["property"]
     wt = tempfile.mkdtemp(prefix=f"seedwt-{name}-", dir="/tmp")
@@ -47,6 +47,11 @@ def one(name, tier, seeds):
         if r.returncode != 0:
             res["error"] = "patch does not apply: " + r.stderr[-300:]
             return res
+        eq = os.path.join(d, "equiv.py")
+        if os.path.exists(eq):   # harmless change: the digest must be identical on the clean and on the patched tree
+            r0 = sh(f"PYTHONPATH={REPO} timeout 900 /venv/bin/python {eq}", cwd=d)
+            r1 = sh(f"PYTHONPATH={wt} timeout 900 /venv/bin/python {eq}", cwd=d)
+            res["equiv_same_digest"] = (r0.returncode == 0 and r1.returncode == 0 and r0.stdout == r1.stdout)
         demo = os.path.join(d, "demo.py")
         if os.path.exists(demo):
             r0 = sh(f"PYTHONPATH={REPO} timeout 600 /venv/bin/python {demo}", cwd=d)
@@ -62,7 +67,8 @@ def one(name, tier, seeds):
                                 "stderr_tail": r.stderr[-300:] if r.returncode not in (0, 1) else ""})
             if lines and r.returncode == 1:
                 res["caught"] = True
-                break
+                if base == "seeded":
+                    break
     finally:
         sh(f"git -C {REPO} worktree remove --force {wt}")
         shutil.rmtree(wt, ignore_errors=True)
@@ -76,18 +82,24 @@ def main():
     ap.add_argument("--only", default="")
     ap.add_argument("--jobs", type=int, default=4)
     ap.add_argument("--seeds", default="0,1")
+    ap.add_argument("--dir", default="seeded", help="seeded (a VIOLATION is expected) or harmless (quiet is expected)")
     a = ap.parse_args()
     seeds = [int(x) for x in a.seeds.split(",")]
-    names = sorted(n for n in os.listdir(os.path.join(VERIF, "seeded"))
-                   if os.path.exists(os.path.join(VERIF, "seeded", n, "meta.json")) and a.only in n)
+    names = sorted(n for n in os.listdir(os.path.join(VERIF, a.dir))
+                   if os.path.exists(os.path.join(VERIF, a.dir, n, "meta.json")) and a.only in n)
     out = []
     with cf.ThreadPoolExecutor(a.jobs) as ex:
-        for r in ex.map(lambda n: one(n, a.tier, seeds), names):
+        for r in ex.map(lambda n: one(n, a.tier, seeds, a.dir), names):
             out.append(r)
             v = r["runs"][-1]["violations"][:1] if r["runs"] else r.get("error")
-            print(f"{r['name']:40s} {r['property']} caught={r['caught']} demo={r.get('demo_clean_rc')}/{r.get('demo_patched_rc')} {v}",
-                  flush=True)
-    path = os.path.join(VERIF, "seeded", "RESULTS.json")
+            if a.dir == "seeded":
+                print(f"{r['name']:40s} {r['property']} caught={r['caught']} demo={r.get('demo_clean_rc')}/{r.get('demo_patched_rc')} {v}",
+                      flush=True)
+            else:
+                allv = [x for run in r["runs"] for x in run["violations"]]
+                print(f"{r['name']:40s} {r['property']} alarm={r['caught']} same_digest={r.get('equiv_same_digest')} "
+                      f"rcs={[run['rc'] for run in r['runs']]} {allv[:3]}", flush=True)
+    path = os.path.join(VERIF, a.dir, "RESULTS.json")
     old = {}
     if os.path.exists(path):
         old = {r["name"]: r for r in json.load(open(path))}
